@@ -327,6 +327,20 @@ def cfg_names(config, tier, seed):
     adapter = HelicityAdapter(base if config.get("all") else [base[config["t"]]])
     if config.get("permute", True):
         adapter.permutate_registered_topologies()
+    extra = []
+    # registering a topology of a different decay must be refused and leave the adapter unchanged
+    before = adapter.registered_topologies
+    foreign = _topologies(n - 1 if n > 2 else n + 1)[0]
+    try:
+        adapter.register_topology(foreign)
+        refused = False
+    except ValueError:
+        refused = True
+    unchanged = adapter.registered_topologies == before
+    extra.append(Result(name="foreign topology refused, adapter unchanged", kind="ground", status="ok" if refused and unchanged else "fail",
+                        config=config["name"], replay={"reproduced": not (refused and unchanged), "refused": refused, "unchanged": unchanged}))  # fmt: skip
+    if not unchanged:
+        adapter = HelicityAdapter(before)
     tops = sorted(adapter.registered_topologies, key=lambda t: sorted((k, e.originating_node_id, e.ending_node_id) for k, e in t.edges.items()))
     ctx = Ctx(config["name"])
     ids = sorted(tops[0].outgoing_edge_ids)
@@ -360,7 +374,7 @@ def cfg_names(config, tier, seed):
     for r in res:
         if r.status == "sat":
             r.selector = f"{config['name']}::{r.name.split(':')[0]}"
-    return res
+    return extra + res
 
 
 def worker(config, tier, seed):
